@@ -303,7 +303,23 @@ def run_c18(t, tier, res):
     if opts["coverage"] == 1.0:
         opts["coverage"] = 0.6
     scratch.fresh_disk()
-    tr = trainer.train(pws, opts)
+    if t.chance(1, 40 if tier == "quick" else 10):
+        # a `uniq -c` list dominated by one password seen 45 000 - 120 000 times, with neighbours that differ in the last
+        # letter seen once: the only way a transition gets the top level 10 (a prefix followed > 44 000 times, a letter once)
+        n = opts["ngram"]
+        base = ("1234abcd"[:t.between(n, n + 2)])
+        lines = ["%d %s" % (t.between(45000, 120000), base)]
+        for c in t.sample(list("79xz!"), t.between(1, 3)):
+            lines.append("%d %s" % (t.between(1, 3), base[:-1] + c))
+        for p in list(dict.fromkeys(pws))[:t.between(0, 6)]:
+            if p and " " not in p and p == p.strip():
+                lines.append("%d %s" % (t.between(1, 4), p))
+        opts = dict(opts, prefixcount=True, encoding="utf-8")
+        tr = trainer.train(None, opts, raw=("\n".join(lines) + "\n").encode("utf-8"))
+        pws = [base]
+        res.stats["dominant_password_lists"] += 1
+    else:
+        tr = trainer.train(pws, opts)
     if flavour.get("large"):
         res.stats["large_lists_trained" if tr.ok else "large_lists_not_trained"] += 1
     res.sample = {"passwords": pws[:15], "n": len(pws), "opts": opts}
@@ -413,7 +429,21 @@ def run_c11(t, tier, res):
         if total + c > 15000:
             break
         try:
-            got, done = drain(MarkovCracker(g, lvl, shared), c * 2 + 5, work=400000)
+            mc = MarkovCracker(g, lvl, shared)
+            if c >= 2 and t.chance(1, 3):
+                # the level is generated in two sittings, as after a quit and --load: the position goes through the
+                # .omn file and a new MarkovCracker continues from it
+                j = 1 + t.draw(c - 1)
+                got, done = drain(mc, j - 1, work=400000)
+                omn = os.path.join(scratch.worker_root(), "c11_level.omn")
+                mc.save_session(omn)
+                mc = MarkovCracker(g, 1, shared)
+                mc.load_session(omn, {"pt": [["M", 1, 1]]})
+                rest, done = drain(mc, c * 2 + 5, work=400000)
+                got = got + rest
+                res.faults["level_generated_in_two_sittings"] += 1
+            else:
+                got, done = drain(mc, c * 2 + 5, work=400000)
         except WorkLimit:
             res.stats["levels_stopped_work_limit"] += 1
             break
@@ -422,6 +452,10 @@ def run_c11(t, tier, res):
             return
         for s in got:
             emitted.setdefault(s, set()).add(lvl)
+            if ref.level(s) != lvl:
+                res.violate("C11", "guesser_level_differs", {"string": s, "guesser_emitted_at": lvl, "level_from_saved_files": ref.level(s),
+                                                             "ngram": opts["ngram"]})
+                return
         total += c
         lmax = lvl
     # candidates
